@@ -1,0 +1,13 @@
+//go:build verif
+
+package apk
+
+// Second wrapper file for the verification harness of property C04 (build tag
+// verif only). It adds no behaviour.
+
+// VerifC04VerificationContext exposes verificationContext, the part of the
+// index-cache key that names the verification context of a request, with the
+// options applied the way GetRepositoryIndexes applies them.
+func VerifC04VerificationContext(u string, keys map[string][]byte, arch string, options ...IndexOption) string {
+	return verificationContext(u, keys, arch, verifC04Opts(options))
+}
